@@ -252,11 +252,14 @@ func run(c *fw.Case) {
 					}
 					switch (g + n) % 3 {
 					case 0:
+						// write-outs are serialised with increasing timestamps, as the single write-out
+						// scheduler of goProbe does (a block older than the day's last block is rejected
+						// by the storage layer, which is C03's business and not a pause effect)
 						tsMu.Lock()
 						t := ts
 						ts += 300
-						tsMu.Unlock()
 						rig.Writeout(t)
+						tsMu.Unlock()
 						c.Count("pauses_writeout", 1)
 					case 1:
 						rig.Mgr.Status(ctx)
